@@ -332,7 +332,34 @@ pub fn exec_step(w: &mut World, ctx: &mut Ctx, st: &Step) -> StepResult {
         }
         "AddAssertion" => {
             let (d, p, o) = (doc!(a0), doc!(a1), doc!(a2));
-            let env = lib!("add_assertion", w.docs[d].env.add_assertion(w.docs[p].env.clone(), w.docs[o].env.clone()));
+            // the same addition through any of the entry points that promise it (a3 selects; most runs use the plain one)
+            let (de, pe, oe) = (w.docs[d].env.clone(), w.docs[p].env.clone(), w.docs[o].env.clone());
+            let entry = a3 % 16;
+            let env: Result<Envelope, String> = lib!(
+                "add_assertion (entry point variant)",
+                match entry {
+                    8 => Ok(de.add_assertion_salted(pe, oe, false)),
+                    9 => Ok(de.add_optional_assertion(pe, Some(oe))),
+                    10 => Ok(de.add_assertion_if(true, pe, oe)),
+                    11 => Ok(de.add_assertions(&[Envelope::new_assertion(pe, oe)])),
+                    12 => Ok(de.add_assertions_salted(&[Envelope::new_assertion(pe, oe)], false)),
+                    13 => de.add_assertion_envelopes(&[Envelope::new_assertion(pe, oe)]).map_err(|e| e.to_string()),
+                    14 => de.add_assertion_envelope_salted(Envelope::new_assertion(pe, oe), false).map_err(|e| e.to_string()),
+                    15 => de.add_optional_assertion_envelope_salted(Some(Envelope::new_assertion(pe, oe)), false).map_err(|e| e.to_string()),
+                    _ => Ok(de.add_assertion(pe, oe)),
+                }
+            );
+            let env = match env {
+                Ok(e) => e,
+                Err(e) => {
+                    ctx.checked();
+                    ctx.violate("C07.add-refused", format!("an assertion built by new_assertion was refused by entry point variant {}: {}", entry, e));
+                    return StepResult::Refused;
+                }
+            };
+            if entry >= 8 {
+                ctx.probe("add-through-alternative-entry-point");
+            }
             let am = M::assertion(w.docs[p].m.clone(), w.docs[o].m.clone());
             let m = w.docs[d].m.add_assertion_m(&am);
             let ind = w.docs[d].independent && w.docs[p].independent && w.docs[o].independent;
@@ -349,9 +376,56 @@ pub fn exec_step(w: &mut World, ctx: &mut Ctx, st: &Step) -> StepResult {
             }
             push_doc(w, ctx, env, if ind { Some(m) } else { None }, "AddAssertion")
         }
+        "AddBatch" => {
+            // several assertions handed over in one call; the model adds them one by one
+            let d = doc!(a0);
+            let pairs: Vec<(usize, usize)> = vec![(doc!(a1), doc!(a2)), (doc!(a3 >> 8), doc!(a3 >> 20)), (doc!(a3 >> 32), doc!(a3 >> 44))];
+            let n = 2 + (a3 >> 4) % 2;
+            let pairs = &pairs[..n as usize];
+            let de = w.docs[d].env.clone();
+            let batch: Vec<Envelope> = pairs.iter().map(|(p, o)| Envelope::new_assertion(w.docs[*p].env.clone(), w.docs[*o].env.clone())).collect();
+            let env: Result<Envelope, String> = lib!(
+                "batch add",
+                match a3 % 4 {
+                    0 => Ok(de.add_assertions(&batch)),
+                    1 => Ok(de.add_assertions_salted(&batch, false)),
+                    2 => de.add_assertion_envelopes(&batch).map_err(|e| e.to_string()),
+                    _ => batch.iter().try_fold(de.clone(), |e, a| e.add_optional_assertion_envelope(Some(a.clone())).map_err(|e| e.to_string())),
+                }
+            );
+            let env = match env {
+                Ok(e) => e,
+                Err(e) => {
+                    ctx.checked();
+                    ctx.violate("C07.add-refused", format!("a batch of assertions built by new_assertion was refused: {}", e));
+                    return StepResult::Refused;
+                }
+            };
+            let mut m = w.docs[d].m.clone();
+            let mut ind = w.docs[d].independent;
+            for (p, o) in pairs {
+                m = m.add_assertion_m(&M::assertion(w.docs[*p].m.clone(), w.docs[*o].m.clone()));
+                ind = ind && w.docs[*p].independent && w.docs[*o].independent;
+            }
+            ctx.probe("batch-add");
+            check_immutable(w, ctx, &[d], "batch add");
+            push_doc(w, ctx, env, if ind { Some(m) } else { None }, "AddBatch")
+        }
         "AddEnvelope" => {
             let (d, x) = (doc!(a0), doc!(a1));
-            let r = lib!("add_assertion_envelope", w.docs[d].env.add_assertion_envelope(w.docs[x].env.clone()));
+            let (de, xe) = (w.docs[d].env.clone(), w.docs[x].env.clone());
+            let r = lib!(
+                "add_assertion_envelope (entry point variant)",
+                match a3 % 12 {
+                    6 => de.add_assertion_envelopes(&[xe]),
+                    7 => de.add_optional_assertion_envelope(Some(xe)),
+                    8 => de.add_assertion_envelope_if(true, xe),
+                    9 => de.add_assertion_envelope_salted(xe, false),
+                    10 => de.add_optional_assertion_envelope_salted(Some(xe), false),
+                    11 => de.add_optional_assertion_envelope(None).and_then(|same| same.add_assertion_envelope(xe)),
+                    _ => de.add_assertion_envelope(xe),
+                }
+            );
             let slot_ok = w.docs[x].m.assertion_slot_ok();
             let ind = w.docs[d].independent && w.docs[x].independent;
             check_immutable(w, ctx, &[d, x], "add_assertion_envelope");
@@ -902,7 +976,7 @@ pub fn generate(property: &str, r: &mut SimRng, seed: u64) -> Scenario {
     let nsteps = if r.chance(3, 4) { r.range(3, 10) } else { r.range(10, 30) };
     // enabled families
     let weights: Vec<(&str, u64)> = {
-        let mut w: Vec<(&str, u64)> = vec![("NewLeaf", 6), ("NewKnown", 2), ("NewAssertion", 3), ("AddAssertion", 8), ("Wrap", 2)];
+        let mut w: Vec<(&str, u64)> = vec![("NewLeaf", 6), ("NewKnown", 2), ("NewAssertion", 3), ("AddAssertion", 8), ("AddBatch", 1), ("Wrap", 2)];
         let on = |r: &mut SimRng, num: u64, den: u64| r.chance(num, den);
         let emphasis = match property {
             "C02" | "C03" => 4,
